@@ -15,7 +15,7 @@ from ..util import arr_equal, describe
 PROP = 'C15'
 
 PARAMS = [(1, 0), (1, 1), (1, 2), (2, 1), (2, 2), (3, 1)]      # (bin in samples, half-window in bins)
-RATES = [1.0, 2.0, 0.5, 1024.0, 10.0, 1000.0]   # 10 / 1000: used only where time * rate is exact
+RATES = [1.0, 2.0, 0.5, 1024.0, 10.0, 1000.0, 32768.0]   # 10 / 1000: used only where time * rate is exact
 EXTRA = 9   # an id that never has spikes
 
 
@@ -82,20 +82,25 @@ def run_case(case, acc, order):
     ctype = [np.int64, np.int32, np.uint32][(order // len(RATES) + case['seed']) % 3]
     lists = id_lists(alphabet, case['tier'], order + case['seed'])
     only = case.get('only')
-    labelings = [tuple(only['labels'])] if only is not None else \
-        itertools.product(alphabet, repeat=n)
+    labelings = ([tuple(only['prev'])] if only.get('prev') else []) + [tuple(only['labels'])] \
+        if only is not None else itertools.product(alphabet, repeat=n)
+    # one label vector per train, relabelled in place from one labelling to the next (as a curation
+    # session does): a call must not remember anything about the object it was given before
+    labels_arr = np.zeros(n, dtype=ctype)
+    prev_labels = None
     for labels in labelings:
         if core.too_many_timeouts():
             return
         acc.state()
-        labels_arr = np.array(labels, dtype=ctype)
+        prev_for_record, prev_labels = prev_labels, list(labels)
+        labels_arr[:] = labels
         present = sorted(set(labels))
         tie = any(train[i] == train[i + 1] for i in range(n - 1))
         for (b, half) in PARAMS:
             bin_size = b / rate
             # the window is 2*half+1 bins, or (dyadic rates, so that the products are exact) half a bin
             # more: the half-window is still floor(window / (2 bin)) = half
-            extra = 0.5 if (rate in (1.0, 2.0, 0.5, 1024.0) and (b + half) % 2 == 0) else 0.0
+            extra = 0.5 if (rate in (1.0, 2.0, 0.5, 1024.0, 32768.0) and (b + half) % 2 == 0) else 0.0
             window = (2 * half + 1 + extra) * bin_size
             edge = any((train[j] - train[i]) // b == half for i in range(n) for j in range(i + 1, n))
             nontrivial = len(present) >= 2 and (tie or edge)
@@ -142,7 +147,8 @@ def run_case(case, acc, order):
                         op = {'labels': list(labels), 'bin': b, 'half': half, 'ids': ids, 'sym': sym,
                               'rate': rate}
                         acc.violation(sig, core.make_record(
-                            PROP, 'correlograms', sig, case=dict(case, only={'labels': list(labels)}),
+                            PROP, 'correlograms', sig,
+                            case=dict(case, only={'labels': list(labels), 'prev': prev_for_record}),
                             op=op, expected=describe(exp), observed=describe(got), order=order),
                             order * 1000 + n)
         # firing-rate normaliser
@@ -168,7 +174,7 @@ def run_case(case, acc, order):
                         'shape' if got.shape != exp.shape else 'value')
                     sig = '%s/firing_rate/ids=%s/%s' % (PROP, lname, kind)
                     acc.violation(sig, core.make_record(
-                        PROP, 'firing_rate', sig, case=dict(case, only={'labels': list(labels)}),
+                        PROP, 'firing_rate', sig, case=dict(case, only={'labels': list(labels), 'prev': prev_for_record}),
                         op={'labels': list(labels), 'ids': ids, 'bin': b, 'duration': dur,
                             'rate': rate},
                         expected=describe(exp), observed=describe(got), order=order),
